@@ -1260,9 +1260,28 @@ impl Obs for C17 {
                 }
                 by_content.push((q, hs));
             }
-            (base, eng.transposition_hash(), by_status, other_side, by_content)
+            // the same neighbours once more, this time around a *clone of the state's own play phase*
+            // (taken after the state has been asked for its hash), as a client does that edits a copy
+            let real = eng.transposition_hash();
+            let cloned = |side2: bool, b: &Board| -> u64 {
+                let pb = piece_board_of(b);
+                let h = Zobrist::from_piece_board(pb.piece_board(), side2, step);
+                GameState::new(side2, mn, Phase::PlayPhase(pp.clone()), pb, h).transposition_hash()
+            };
+            let c_same = cloned(side, &v.m.board);
+            let c_other = cloned(!side, &v.m.board);
+            let mut c_content: Vec<u64> = vec![];
+            if let Some(&q) = squares.first() {
+                for c in 0..13u8 {
+                    let code = if c == 0 { m::EMPTY } else if c <= 6 { m::mk(true, c) } else { m::mk(false, c - 6) };
+                    let mut b = v.m.board;
+                    b.0[q as usize] = code;
+                    c_content.push(cloned(side, &b));
+                }
+            }
+            (base, real, by_status, other_side, by_content, (c_same, c_other, c_content, squares.first().copied()))
         });
-        let (base, real, by_status, other_side, by_content) = match r {
+        let (base, real, by_status, other_side, by_content, cl) = match r {
             Ok(x) => x,
             Err(_) => {
                 st.bump("twin_construction_panicked");
@@ -1281,6 +1300,15 @@ impl Obs for C17 {
             ensure!(by_status[w[0]] != by_status[w[1]], "C17:status", "two states that differ only in the pending push/pull ({:?} vs {:?}) have the same transposition hash {:#018x}; both are {} with its own per-turn record, history and capture flag (captured this turn: {})", statuses[w[0]], statuses[w[1]], by_status[w[0]], v.describe(), v.m.captured_this_turn);
         }
         ensure!(other_side != base, "C17:side", "the state {} and the same state with the other side to move have the same transposition hash", v.describe());
+        if cl.0 == real {
+            ensure!(cl.1 != real, "C17:side", "the state {} and the same state with the other side to move, built around a clone of its play phase, have the same transposition hash", v.describe());
+            for i in 0..cl.2.len() {
+                for j in (i + 1)..cl.2.len() {
+                    ensure!(cl.2[i] != cl.2[j], "C17:square_content", "two states that differ only in the content of {}, both built around a clone of the play phase of {}, have the same transposition hash", m::sq_name(cl.3.unwrap_or(0)), v.describe());
+                }
+            }
+            st.bump("neighbours_built_around_a_cloned_play_phase");
+        }
         for (q, hs) in by_content.iter() {
             for i in 0..13 {
                 for j in (i + 1)..13 {
